@@ -45,10 +45,14 @@ class EngineCheck(Check):
         'the reference interpreter is my reading of the documented dataflow semantics',
     )
 
+    gen_extra = {}
+
     def gen_kwargs(self, tier):
         lo, hi = self.quick_nodes if tier == 'quick' else self.thorough_nodes
-        return dict(feats=self.feats, clean=True, n_scheds=self.n_scheds, min_nodes=lo, max_nodes=hi,
-                    p_feat=self.p_feat)
+        kw = dict(feats=self.feats, clean=True, n_scheds=self.n_scheds, min_nodes=lo, max_nodes=hi,
+                  p_feat=self.p_feat)
+        kw.update(self.gen_extra)
+        return kw
 
     def strategy(self, tier):
         return G.cases(**self.gen_kwargs(tier)).map(_sanitize)
@@ -203,13 +207,23 @@ def _tag(viol, i):
 # ------------------------------------------------------------------------------------------------ C01
 class C01(ScheduleEnumerationMixin, EngineCheck):
     id = 'C01'
+
+    def strategy(self, tier):
+        base = super().strategy(tier)
+        return st.one_of(*([base] * 14), rec_consumer_templates(tier), shared_failure_templates(tier))
+
     rule = ('case = generated program (all mark kinds, modes, retry settings) x behaviour variant x 1 FIFO + 3 '
             'generated schedules (index tapes and rank schedules); non-trivial = at least two completions were '
             'outstanding at once in some run and two of the compared runs delivered completions in different orders; '
             'distinct = digest of (program, variant, schedules)')
-    floors = {'outstanding>=2': 0.2}
-    quick_nodes = (4, 9)
-    thorough_nodes = (4, 12)
+    floors = {'outstanding>=2': 0.3}
+    quick_nodes = (5, 10)
+    thorough_nodes = (5, 12)
+    p_feat = 25
+    # schedule independence needs several completions outstanding at once: mostly externally completed modes,
+    # mostly layered (wide) shapes
+    gen_extra = {'mode_weights': {'gated': 6, 'thread': 3, 'process': 2, 'coro': 1, 'inline': 1}, 'p_layered': 9,
+                 'p_nested': 7}
 
     def oracle(self, case, refres, obs):
         v = []
@@ -460,6 +474,54 @@ def outside_reader_templates(draw, tier):
 
 
 @st.composite
+def rec_consumer_templates(draw, tier):
+    """clean-region directed shape: the consumer of a recurrent destination has a second producer W whose completion
+    is placed at EVERY position of the run (also in the loop step in which the destination asks for an iteration)"""
+    def N(nid, params=(), mode='gated', **kw):
+        d = {'id': nid, 'params': [list(p) for p in params], 'mode': mode}
+        d.update(kw)
+        return d
+    ext = st.sampled_from(['gated', 'gated', 'thread', 'process', 'coro'])
+    ln = draw(st.integers(1, 3))
+    nodes = [N('n0', mode=draw(st.sampled_from(['coro', 'inline', 'gated'])))]
+    start_is_input = draw(st.integers(0, 3)) == 0
+    prev = 'n0'
+    chain = ['n0'] if start_is_input else []
+    for i in range(ln):
+        nid = f'n{len(nodes)}'
+        nodes.append(N(nid, [('k0', ['in', prev])], mode=draw(ext)))
+        chain.append(nid)
+        prev = nid
+    S.node_index({'nodes': nodes})[chain[0]]['additional_data'] = True
+    dest = chain[-1]
+    S.node_index({'nodes': nodes})[dest]['rec_dest'] = True
+    if draw(st.booleans()):
+        S.node_index({'nodes': nodes})[dest]['use_default'] = True
+    prev = 'n0'
+    for _ in range(draw(st.integers(0, ln + 1))):
+        nid = f'n{len(nodes)}'
+        # nothing outside the subgraph may read the start node by value (that is the F6 region)
+        reads = prev != 'n0' or (not start_is_input and draw(st.booleans()))
+        nodes.append(N(nid, [('k0', ['in', prev])] if reads else [], mode=draw(st.sampled_from(['coro', 'inline']))))
+        prev = nid
+    w = f'n{len(nodes)}'
+    nodes.append(N(w, [('k0', ['in', prev])] if prev != 'n0' or not start_is_input else [], mode=draw(ext)))
+    maxit = draw(st.integers(1, 3))
+    x = f'n{len(nodes)}'
+    params = [('k0', ['rec', chain[0], dest, maxit]), ('k1', ['in', w])]
+    if draw(st.booleans()):
+        params.reverse()
+        params = [(f'k{i}', m) for i, (_, m) in enumerate(params)]
+    nodes.append(N(x, params, mode=draw(ext)))
+    out = f'n{len(nodes)}'
+    nodes.append(N(out, [('k0', ['in', x])], mode=draw(ext)))
+    prog = {'nodes': nodes, 'output': out}
+    var = {'x': 0, 'nodes': {dest: {'rec_n': draw(st.integers(1, maxit + 1))}}}
+    scheds = [{'kind': 'delay', 'node': w, 'after': k} for k in range(0, 4 * ln + 8)]
+    return {'program': prog, 'variant': var, 'scheds': scheds, 'template': 'rec-consumer'}
+
+
+@st.composite
 def outside_reader_cases(draw, tier):
     """recurrent subgraphs whose interior is also read from outside (known finding F6: which iteration the reader
     sees is schedule-dependent). Only the model-free oracle above is applied to these cases."""
@@ -475,6 +537,7 @@ def outside_reader_cases(draw, tier):
 
 class C03(EngineCheck):
     id = 'C03'
+    quick_examples = 1000
     rule = ('case = program x variant x 4 schedules (rank schedules hold chosen producers back); every body '
             'invocation is checked: keyword names = declared parameters, no exception / Recurrent / unproduced value '
             'as argument, argument digests equal the reference (which encodes provenance of every upstream value, run '
@@ -484,8 +547,9 @@ class C03(EngineCheck):
 
     def strategy(self, tier):
         base = super().strategy(tier)
-        return st.one_of(base, base, base, base, base, base, outside_reader_cases(tier),
-                         outside_reader_templates(tier))
+        return st.one_of(base, base, base, base, base, base, base, base, outside_reader_cases(tier),
+                         outside_reader_templates(tier), shared_failure_templates(tier),
+                         rec_consumer_templates(tier))
 
     def oracle(self, case, refres, obs):
         v = []
@@ -915,6 +979,7 @@ class C10(EngineCheck):
 # ------------------------------------------------------------------------------------------------ C11
 class C11(EngineCheck):
     id = 'C11'
+    quick_examples = 900
     feats = ('rec', 'fail', 'retry', 'default', 'oneof', 'switch', 'generic')
     p_feat = 55
     quick_nodes = (3, 9)
@@ -927,7 +992,8 @@ class C11(EngineCheck):
 
     def strategy(self, tier):
         kw = self.gen_kwargs(tier)
-        return G.cases(**kw).map(_sanitize).filter(lambda c: S.has_kind(c['program'], 'rec'))
+        base = G.cases(**kw).map(_sanitize).filter(lambda c: S.has_kind(c['program'], 'rec'))
+        return st.one_of(*([base] * 12), rec_consumer_templates(tier))
 
     def oracle(self, case, refres, obs):
         v = []
